@@ -5,5 +5,6 @@ CONSTANTS
   EMDs = {TRUE}
   Forms = {"literal", "hex", "utf16"}
   UPWs = {"empty", "set"}
+  Writes = {1, 2}
   Emit = TRUE
 INVARIANTS ExceptionsExact EmitCase
